@@ -6,13 +6,21 @@ from props import dwtfam
 
 ID = 'C07'
 PROPS_MODULE = 'Props.C07'
-THEOREMS = ['C07_ana_linear', 'C07_ana_per_linear', 'C07_syn_linear', 'C07_syn_per_linear', 'C07_slice_afb_zero']
+THEOREMS = ['C07_ana_linear', 'C07_ana_per_linear', 'C07_syn_linear', 'C07_syn_per_linear', 'C07_slice_afb_zero',
+            'C07_DWT1DForward_linear', 'C07_DWT1DInverse_linear', 'C07_DWTForward_linear', 'C07_DWTInverse_linear', 'C07_SWTForward_linear',
+            'C07_DTCWTForward_linear', 'C07_DTCWTInverse_linear', 'C07_lincomb_related', 'C07_zero_in', 'C07_zero_out',
+            'C07_slice_is_related', 'C07_DWT1DForward_slice', 'C07_DWT1DInverse_slice', 'C07_DWTForward_slice', 'C07_DWTInverse_slice',
+            'C07_SWTForward_slice', 'C07_DTCWTForward_slice', 'C07_DTCWTInverse_slice']
 VO = ['theories/Props/C07.vo', 'theories/Run/RunDwt.vo']
 RULE = ('correspondence A with N,C in {1,2,3} and DISTINCT slices: afb1d/sfb1d with C=2,3 (full operator matrices), all Functions and modules, '
         'a trous and SWT, non-separable banks: a channel or batch leak changes an integer; oracle on every public transform (DWT1D/2D fwd+inv, SWT, DTCWT fwd+inv): '
         'T(0)=0 exactly, superposition T(ax+by)=aT(x)+bT(y), and batched output == per-slice outputs for random (N,C). distinct by (transform, config, check).')
 TRUSTED = TRUSTED_COMMON + ['a data-dependent branch hidden inside a torch kernel cannot be exhibited by the model']
-ASSUMES = ['theorems: linearity of the four closed forms the analysis/synthesis models are proved to compute, and slice independence of the analysis model (one line operator for every (n,c,row)); the DTCWT and 2-D/multi-level statements are decided by correspondence and oracle']
+ASSUMES = ['theorems on the tensor-level model (the Gallina transcription that correspondence A ties to the code), for every J, mode, filter, size, N and C: '
+           'all seven transforms (DWT1D/DWT2D forward+inverse, SWT forward, DTCWT forward+inverse incl. skipped levels, absent lowpass/levels) are linear '
+           '(relation L3: x3 = a x1 + b x2 everywhere -> outputs related the same way, or all three raise the same error), T(0)=0 is the case a=b=0, '
+           'and each acts per slice (relation Sl: the transform of the 1x1xHxW slice x[n,c] is the (n,c) slice of the transform of the batch); '
+           'the DTCWT inverse slice theorem asks every band-pass level to be absent or to hold its 12 planes; linearity of the four closed forms kept from before']
 
 
 def corr_jobs(tier, rng):
